@@ -292,7 +292,88 @@ def discharge(pc: list, goal, timeout_ms: int = 20000, want_model=True, watch=No
     if v2 is not None:
         v2.secs = time.time() - t0
         return v2
+    # sequence (dis)equalities: z3's seq solver often cannot build a model for
+    # "these two sequences differ"; strengthen the negated goal to "their
+    # lengths differ" (any model of that is a model of the original query)
+    if z3.is_eq(goal) and goal.arg(0).sort().kind() == z3.Z3_SEQ_SORT:
+        s2 = z3.Solver()
+        s2.set("timeout", min(10000, timeout_ms))
+        for c in pc:
+            s2.add(c)
+        s2.add(z3.Length(goal.arg(0)) != z3.Length(goal.arg(1)))
+        try:
+            if s2.check() == z3.sat:
+                m = s2.model()
+                if all(z3.is_true(m.eval(c, model_completion=True)) for c in pc) and \
+                        z3.is_false(m.eval(goal, model_completion=True)):
+                    return Verdict("refuted", "z3-5.1", time.time() - t0, _model_dict(m),
+                                   note="model found for the strengthened query len(lhs) != len(rhs)")
+        except z3.Z3Exception:
+            pass
+    va = _ackermann_refute(pc, goal, min(10000, timeout_ms))
+    if va is not None:
+        va.secs = time.time() - t0
+        return va
     return Verdict("unknown", "z3-5.1", time.time() - t0, note=str(s.reason_unknown()))
+
+
+def _ackermann_refute(pc, goal, timeout_ms):
+    """replace applications of uninterpreted functions by fresh constants, solve,
+    and accept the model only if it is functionally consistent (equal argument
+    values => equal results), i.e. extends to a model of the original query"""
+    forms = list(pc) + [z3.Not(goal)]
+    apps = {}
+    todo = list(forms)
+    seen = set()
+    while todo:
+        t = todo.pop()
+        if t.get_id() in seen or not z3.is_app(t):
+            continue
+        seen.add(t.get_id())
+        d = t.decl()
+        if d.kind() == z3.Z3_OP_UNINTERPRETED and d.arity() > 0:
+            apps[t.get_id()] = t
+        todo.extend(t.children())
+    if not apps:
+        return None
+    # innermost first so nested applications are replaced consistently
+    order = sorted(apps.values(), key=lambda t: len(t.sexpr()))
+    pairs = []
+    cur = forms
+    consts = []
+    for i, a in enumerate(order):
+        a2 = z3.substitute(a, *pairs) if pairs else a
+        k = z3.Const(f"ack!{i}", a.sort())
+        consts.append((a, k))
+        pairs.append((a2, k))
+        cur = [z3.substitute(f, (a2, k)) for f in cur]
+    sa = z3.Solver()
+    sa.set("timeout", timeout_ms)
+    for f in cur:
+        sa.add(f)
+    try:
+        if sa.check() != z3.sat:
+            return None
+        m = sa.model()
+        table = {}
+        for a, k in consts:
+            args = []
+            for ch in a.children():
+                # evaluate the argument with inner applications replaced
+                ch_abs = ch
+                for (a2, kk) in pairs:
+                    ch_abs = z3.substitute(ch_abs, (a2, kk))
+                args.append(str(m.eval(ch_abs, model_completion=True)))
+            key = (a.decl().name(), tuple(args))
+            val = str(m.eval(k, model_completion=True))
+            if table.setdefault(key, val) != val:
+                return None          # not functionally consistent
+        md = _model_dict(m)
+        md = {kk: v for kk, v in md.items() if not kk.startswith("ack!")}
+        return Verdict("refuted", "z3-5.1", 0.0, md,
+                       note="model via Ackermann expansion of uninterpreted functions (functionally consistent)")
+    except z3.Z3Exception:
+        return None
 
 
 def _cli_fallback(s: z3.Solver, timeout_ms: int):
